@@ -31,7 +31,17 @@ Definition spec_answer (c : config) (o : op) : ans :=
            | None => APanic
            | Some raw => AStr (fmt c id h raw)
            end
-  | OSign k h => ABool (check_sign c k h)
+  | OSign k h =>
+      ABool (match c_sfrom c k with
+             | None => false
+             | Some (d, p) => from_ok c d p && check_sign c k h
+             end)
+  | OFrom d p h =>
+      if negb (has_drv c d) then AStr []
+      else match c_raw c d p with
+           | None => AStr []
+           | Some raw => AStr (fmt c d h raw)
+           end
   end.
 
 (** ** guards of the partial theorems (boolean) *)
@@ -45,13 +55,29 @@ Definition op_key (c : config) (o : op) : option (N * N) :=
       let id := resolve_drv c d in
       if negb (has_drv c id) then None
       else match c_raw c id p with None => None | Some _ => Some ((1 + id)%N, p) end
-  | OSign _ _ => None
+  | OSign k _ =>
+      match c_sfrom c k with
+      | None => None
+      | Some (d, p) => if negb (has_drv c d) then None
+                       else match c_raw c d p with None => None | Some _ => Some ((1 + d)%N, p) end
+      end
+  | OFrom d p _ =>
+      if negb (has_drv c d) then None
+      else match c_raw c d p with None => None | Some _ => Some ((1 + d)%N, p) end
   end.
 
 (** the value a cache miss of this operation stores, according to the spec *)
 Definition op_under (c : config) (o : op) : ans :=
   match o with
   | OCheck a h | ODapp a h => AErr (spec_under c a h)
+  | OSign k h =>
+      match c_sfrom c k with
+      | None => spec_answer c o
+      | Some (d, p) => match c_raw c d p with
+                       | None => spec_answer c o
+                       | Some raw => AStr (fmt c d h raw)
+                       end
+      end
   | _ => spec_answer c o
   end.
 
@@ -125,7 +151,7 @@ Definition all_zero (c : config) : bool := forallb (fun p => snd p =? 0) (c_drv 
     conversions stay on one side of the formatting fork *)
 Definition fmt_side_b (c : config) (side : bool) (ops : list op) : bool :=
   forallb (fun o => match o with
-                    | OPub _ _ h => Bool.eqb (is_fork h (c_ffmt c)) side
+                    | OPub _ _ h | OFrom _ _ h | OSign _ h => Bool.eqb (is_fork h (c_ffmt c)) side
                     | _ => true
                     end) ops.
 
